@@ -62,6 +62,10 @@ class C09(Property):
              ("antismash/modules/tta/tta.py", "TTAResults.from_json"),
              ("antismash/modules/tta/tta.py", "detect"),
              ("antismash/common/hmmer.py", "build_hits"),
+             ("antismash/common/hmmer.py", "HmmerHit.__post_init__"),
+             ("antismash/common/hmmer.py", "HmmerResults.to_json"),
+             ("antismash/common/hmmer.py", "HmmerResults.from_json"),
+             ("antismash/common/hmmer.py", "HmmerResults.add_to_record"),
              ("antismash/detection/nrps_pks_domains/domain_identification.py", "generate_domain_features"),
              ("antismash/detection/nrps_pks_domains/domain_identification.py", "generate_motif_features"),
              ("antismash/common/secmet/record.py", "Record.get_aa_translation_from_location")]
@@ -244,7 +248,7 @@ class C09(Property):
                 yield dict(base, kind="prepeptide_rt", leader=ld2, tail=tl2)
             if rng.random() < 0.35 and loc["parts"][0][2] in (1, -1):
                 s, e = self.rand_range(rng, loc, 3)
-                yield dict(base, kind=rng.choice(["motif", "domain"]), s=s, e=e, dna=self.without_stops(loc, dna))
+                yield dict(base, kind=rng.choice(["motif", "domain", "pfam"]), s=s, e=e, dna=self.without_stops(loc, dna))
             overlapping = any(a[0] < b[1] and b[0] < a[1] for a, b in itertools.combinations(loc["parts"], 2))
             if rng.random() < (0.5 if overlapping else 0.08) and loc["parts"][0][2] in (1, -1):
                 # whole-module run; codons are planted at random residues and on the exon junctions
@@ -409,6 +413,8 @@ class C09(Property):
                 out["json_rt"] = self._tta_json_roundtrip(results)
             elif kind in ("motif", "domain"):
                 out.update(self._run_caller(case, location, seq, gene_extract))
+            elif kind == "pfam":
+                out.update(self._run_pfam(case, location, seq, gene_extract))
             elif kind == "tta_detect":
                 out.update(self._run_tta_detect(case, location))
             else:
@@ -495,6 +501,39 @@ class C09(Property):
                 "protein": [int(feat.protein_location.start), int(feat.protein_location.end)]}
 
     @staticmethod
+    def _run_pfam(case: Dict[str, Any], location: Any, seq: Any, gene_extract: str) -> Dict[str, Any]:
+        """the generic hmmer path: build_hits (location → text) → HmmerResults JSON → add_to_record (text →
+           location) → PFAMDomain in the record"""
+        import json as _json
+        from types import SimpleNamespace
+        from Bio.Seq import Seq
+        from antismash.common import hmmer, pfamdb
+        from antismash.common.secmet.test.helpers import DummyCDS, DummyRecord
+        database = "/db/pfam/31.0/Pfam-A.hmm"
+        pfamdb.KNOWN_MAPPINGS[database] = {"dom": "PF00001.21"}
+        usable = gene_extract[:len(gene_extract) - len(gene_extract) % 3]
+        translation = str(Seq(usable).translate()) or "X"
+        parts = case["loc"]["parts"]
+        rev = parts[0][2] == -1
+        spanning = any((a[0] < b[0]) if rev else (a[0] > b[0]) for a, b in zip(parts, parts[1:]))
+        try:
+            record = DummyRecord(seq=str(seq), circular=spanning)
+            record.add_cds_feature(DummyCDS(location=location, locus_tag="gene", translation=translation))
+        except Exception as exc:  # pylint: disable=broad-except
+            return {"skipped": f"record set-up refused: {str(exc)[:80]}"}
+        hsp = SimpleNamespace(bitscore=50.0, evalue=1e-20, query_id="gene", query_start=case["s"],
+                              query_end=case["e"], hit_id="dom", hit_description="a domain")
+        hits = hmmer.build_hits(record, [SimpleNamespace(id="dom", hsps=[hsp])], 10.0, 1e-5, database)
+        results = hmmer.HmmerResults(record.id, 1e-5, 10.0, database, "tool", hits)
+        again = hmmer.HmmerResults.from_json(_json.loads(_json.dumps(results.to_json())), record)
+        again.add_to_record(record)
+        dom = record.get_pfam_domains()[0]
+        return {"loc": common.location_json(dom.location), "extract": str(dom.location.extract(seq)),
+                "translation": str(dom.location.extract(seq).translate()),
+                "feature_translation": dom.translation, "record_translation_ok": True,
+                "protein": [int(dom.protein_location.start), int(dom.protein_location.end)]}
+
+    @staticmethod
     def _run_tta_detect(case: Dict[str, Any], location: Any) -> Dict[str, Any]:
         """whole-module run: plant TTA codons into the gene, detect, every marker must extract to TTA"""
         from argparse import Namespace
@@ -546,7 +585,7 @@ class C09(Property):
     def driver_line(self, case: Dict[str, Any], obs: Dict[str, Any]) -> Optional[Dict[str, Any]]:
         kind = case["kind"]
         line: Dict[str, Any] = {"loc": case["loc"]}
-        if kind in ("sub", "motif", "domain"):
+        if kind in ("sub", "motif", "domain", "pfam"):
             line.update(kind="sub", s=case["s"], e=case["e"], impl=obs.get("loc"), feature=kind != "sub")
             if case.get("fz"):
                 line["fz"] = case["fz"]
@@ -593,6 +632,9 @@ class C09(Property):
         if not link_ok:
             return Judgement(False, True, in_scope=scope, tags=tuple(tags),
                              detail="Biopython extract disagrees with the transcription-order reading")
+        if kind == "pfam" and "skipped" in obs:
+            tags.append("pfam-skipped")
+            return Judgement(True, True, in_scope=scope, tags=tuple(tags))
         if kind == "tta_detect":
             if "skipped" in obs:
                 tags.append("detect-skipped")
@@ -617,17 +659,17 @@ class C09(Property):
             return flag is True and ob["extract"] == transcribed(loc, case["dna"], positions)
 
         # ---- correspondence (implementation == model) and spec, per kind
-        if kind in ("sub", "offsets", "tta", "motif", "domain"):
+        if kind in ("sub", "offsets", "tta", "motif", "domain", "pfam"):
             m = self._model_obs(model)
             corr = (impl_err == m) if impl_err is not None else (obs["loc"] == m)
-            if guard and drv.get("unrepresentable") and kind in ("tta", "motif", "domain"):
+            if guard and drv.get("unrepresentable") and kind in ("tta", "motif", "domain", "pfam"):
                 # exons of the sub-location share an end coordinate: no secmet Feature can hold it, so no
                 # annotation is positioned at all (refused with ValueError)
                 spec_ok = impl_err == "value-error"
                 tags.append("unrepresentable-refused")
             elif guard:
                 spec_ok = impl_err is None and covers_ok(spec["covers"], obs, spec["slice"])
-                if spec_ok and kind in ("sub", "motif", "domain"):
+                if spec_ok and kind in ("sub", "motif", "domain", "pfam"):
                     s, e = case["s"], drv.get("eff_e", case["e"])     # partial genes: end truncated to the product
                     if drv.get("truncated"):
                         tags.append("end-truncated")
@@ -640,14 +682,17 @@ class C09(Property):
                             and obs["record_translation_ok"]
             else:
                 spec_ok = impl_err is not None          # ranges outside the gene are refused
-                if kind in ("motif", "domain") and impl_err is None:
+                if kind in ("motif", "domain", "pfam") and impl_err is None:
                     spec_ok = False
         elif kind == "convert":
             m = self._model_obs(model)
             corr = (impl_err == m) if impl_err is not None else (obs["pair"] == m and obs["method_same"])
             spec_ok = True
-            if spec["simple"]:
-                spec_ok = (impl_err is None and obs["pair"] == spec["minmax"]) if guard else impl_err is not None
+            if spec["standard"] and scope:
+                # theorems convert_simple_location / convert_compound_{forward,reverse}_partial
+                spec_ok = (impl_err is None and obs["pair"] == spec["expected"] == spec["minmax"]) if guard \
+                    else impl_err is not None
+                tags.append("convert-standard-order")
         elif kind == "frameshift":
             m = self._model_obs(model)
             corr = (impl_err == m) if impl_err is not None else (obs["loc"] == m)
@@ -763,7 +808,8 @@ class C09(Property):
         if not corr and not detail:
             detail = f"model {model} vs implementation {obs}"
         nontrivial = guard and scope and impl_err is None and (multi or drv["bridges"])
-        return Judgement(corr, spec_ok, in_scope=scope, nontrivial=nontrivial, tags=tuple(tags), detail=detail)
+        proved = scope and (kind != "convert" or bool(spec["standard"]))   # convert_*: standard exon order only
+        return Judgement(corr, spec_ok, in_scope=proved, nontrivial=nontrivial, tags=tuple(tags), detail=detail)
 
     def shrink(self, case: Dict[str, Any]) -> Iterator[Dict[str, Any]]:
         loc = case["loc"]
